@@ -104,6 +104,43 @@ var DefaultLevel dep.Level
 var Levels []dep.Level
 `
 
+// a dependency that SHADOWS a package the engine's importer can resolve as well (another version of it): the package that
+// depends on it gets its own version, whatever the engine has cached for packages that do not
+const memShadowPath = "container/ring"
+
+const memShadowSource = `package ring
+
+type Ring struct{ X, Y, Z int }
+
+func New(n int) *Ring { return &Ring{X: n} }
+`
+
+const memShadowTarget = `package mtsh
+
+import ring "container/ring"
+
+var (
+	vRing  ring.Ring
+	vPRing = ring.New(3)
+	vInt   int
+	vStr   string
+)
+
+func mvring1(interface{}) {}
+func mvring2(interface{}) {}
+func mvdo(interface{})    {}
+
+func shadows() {
+	mvring1(vRing)
+	mvring1(vPRing)
+	mvring1(vInt)
+	mvring2(vRing)
+	mvring2(vStr)
+	mvdo(vRing)
+	mvdo(vPRing)
+}
+`
+
 type memImporter struct {
 	mem  map[string]*types.Package
 	next types.Importer
@@ -209,7 +246,10 @@ var (
 		}
 	}
 	b.WriteString("}\n")
+	b.WriteString("func mvring1(interface{}) {}\nfunc mvring2(interface{}) {}\n")
 	fmt.Fprintf(&b, "\nfunc deps%d%s() { // nolint\n", v, k)
+	// names of a package these targets do not depend on: the engine's importer answers (and the answer is cached)
+	b.WriteString("\tmvring1(vInt)\n\tmvring1(vConf)\n\tmvring2(vLevel)\n")
 	for i := 1; i <= memUses; i++ {
 		for j, val := range memLocalValues {
 			if (i+j+rot)%3 != 0 || j < 5 {
@@ -277,5 +317,17 @@ func checkMemTargets(dir string, fset *token.FileSet, std types.Importer, nDo, n
 			memTargets = append(memTargets, &target{name, &hutil.Target{Fset: fset, File: f, Info: info, Pkg: pkg, Src: []byte(src), Path: path}})
 		}
 	}
+	// the shadowing dependency and the one package that depends on it
+	ring, _, _, err := memCheck(fset, std, memShadowPath, "c08mem/shadow/ring.go", memShadowSource)
+	if err != nil {
+		return err
+	}
+	memPkgVariant[ring] = 9
+	path := filepath.Join(dir, "mem", "mtsh", "mtsh.go")
+	pkg, f, info, err := memCheck(fset, memImporter{map[string]*types.Package{memShadowPath: ring}, std}, "c08/mtsh", path, memShadowTarget)
+	if err != nil {
+		return err
+	}
+	memTargets = append(memTargets, &target{"mtsh", &hutil.Target{Fset: fset, File: f, Info: info, Pkg: pkg, Src: []byte(memShadowTarget), Path: path}})
 	return nil
 }
